@@ -9,10 +9,11 @@ open YV YV.X YV.XL YV.XC
 
 /-- a token an operand ends with -/
 def endTok (p : Tok) : Prop :=
-  (∃ x, p = .num x) ∨ (∃ l, p = .lit l) ∨ p = .ch (chr ')') ∨ (∃ q l, p = .nametest q l) ∨ p = .dotdot ∨ p = .ch (chr '.')
+  (∃ x, p = .num x) ∨ (∃ l, p = .lit l) ∨ p = .ch (chr ')') ∨ (∃ q l, p = .nametest q l) ∨ p = .dotdot ∨ p = .ch (chr '.') ∨
+    p = .ch (chr ']')
 
 theorem canOp_end {p : Tok} (h : endTok p) : canBeOperator (some p) = true := by
-  rcases h with ⟨x, rfl⟩ | ⟨l, rfl⟩ | rfl | ⟨q, l, rfl⟩ | rfl | rfl <;> simp [canBeOperator, chr]
+  rcases h with ⟨x, rfl⟩ | ⟨l, rfl⟩ | rfl | ⟨q, l, rfl⟩ | rfl | rfl | rfl <;> simp [canBeOperator, chr]
 
 theorem canOp_opTok (op : BinOp) : canBeOperator (some (opTok op)) = false := by
   cases op <;> simp [opTok, canBeOperator, chr]
@@ -49,11 +50,20 @@ theorem canOp_comma : canBeOperator (some (.ch (chr ','))) = false := by simp [c
 theorem canOp_minus : canBeOperator (some (.ch (chr '-'))) = false := by simp [canBeOperator, chr]
 theorem canOp_slash : canBeOperator (some (.ch (chr '/'))) = false := by simp [canBeOperator, chr]
 
+theorem canOp_lbracket : canBeOperator (some (.ch (chr '['))) = false := by simp [canBeOperator, chr]
+
 theorem end_step (st : PStep) : endTok st.tok := by
   cases st with
-  | name p l => exact Or.inr (Or.inr (Or.inr (Or.inl ⟨p, l, rfl⟩)))
+  | name p l preds => exact Or.inr (Or.inr (Or.inr (Or.inl ⟨p, l, rfl⟩)))
   | up => exact Or.inr (Or.inr (Or.inr (Or.inr (Or.inl rfl))))
-  | dot => exact Or.inr (Or.inr (Or.inr (Or.inr (Or.inr rfl))))
+  | dot => exact Or.inr (Or.inr (Or.inr (Or.inr (Or.inr (Or.inl rfl)))))
+
+theorem end_rbracket : endTok (.ch (chr ']')) := Or.inr (Or.inr (Or.inr (Or.inr (Or.inr (Or.inr rfl)))))
+
+/-- the contents of a predicate satisfy the lexer's context conditions wherever an expression may start -/
+def BlkCtx (b : Blk) : Prop :=
+  ∀ (prev : Option Tok) (rest : List Tok), canBeOperator prev = false → (∀ p, endTok p → ctxOK (some p) rest) →
+    rest.head? ≠ some (.ch (chr '(')) → ctxOK prev (b.toks ++ rest)
 
 theorem sep_head (r : List PStep) (rest : List Tok) (h : rest.head? ≠ some (.ch (chr '('))) :
     (sepToks r ++ rest).head? ≠ some (.ch (chr '(')) := by
@@ -61,28 +71,59 @@ theorem sep_head (r : List PStep) (rest : List Tok) (h : rest.head? ≠ some (.c
   | nil => simpa [sepToks] using h
   | cons a r => simp [sepToks, chr]
 
-/-- one step where no operator may stand -/
+/-- predicates after a token an operand may end with -/
+theorem ctx_preds (rest : List Tok) (hr : ∀ p, endTok p → ctxOK (some p) rest) (hh : rest.head? ≠ some (.ch (chr '('))) :
+    ∀ (preds : List Blk) (p0 : Tok), endTok p0 → (∀ b ∈ preds, BlkCtx b) → ctxOK (some p0) (blkToks preds ++ rest) := by
+  intro preds
+  induction preds with
+  | nil => intro p0 h0 _; exact hr p0 h0
+  | cons b r ih =>
+    intro p0 _ hall
+    simp only [blkToks, List.cons_append, List.append_assoc]
+    exact ctx_ch _ '[' _ (by simp [chr]) (hall b (by simp) _ _ canOp_lbracket
+      (fun p _ => ctx_ch _ ']' _ (by simp [chr]) (ih _ end_rbracket fun x hx => hall x (by simp [hx]))) (by simp [chr]))
+
+theorem preds_head (preds : List Blk) (r : List Tok) (h : r.head? ≠ some (.ch (chr '('))) :
+    (blkToks preds ++ r).head? ≠ some (.ch (chr '(')) := by
+  cases preds with
+  | nil => simpa [blkToks] using h
+  | cons b x => simp [blkToks, chr]
+
+/-- one step (with its predicates) where no operator may stand -/
 theorem ctx_step (prev : Option Tok) (st : PStep) (r : List Tok) (hp : canBeOperator prev = false)
-    (hr : r.head? ≠ some (.ch (chr '('))) (h : ctxOK (some st.tok) r) : ctxOK prev (st.tok :: r) := by
+    (hr : r.head? ≠ some (.ch (chr '('))) (hall : ∀ b ∈ st.preds, BlkCtx b) (h : ∀ p, endTok p → ctxOK (some p) r) :
+    ctxOK prev (st.tok :: (st.rest ++ r)) := by
   cases st with
-  | name p l => exact ctx_name prev p l r hp hr h
-  | up => exact ctx_plain prev .dotdot r (by simp [needsOp]) (fun fn => (by simp)) (fun p l => (by simp)) (by simp) h
-  | dot => exact ctx_ch prev '.' r (by simp [chr]) h
+  | name p l preds =>
+    exact ctx_name prev p l _ hp (preds_head preds r hr)
+      (ctx_preds r h hr preds _ (Or.inr (Or.inr (Or.inr (Or.inl ⟨p, l, rfl⟩)))) hall)
+  | up =>
+    exact (ctx_plain prev .dotdot r (by simp [needsOp]) (fun fn => (by simp)) (fun p l => (by simp)) (by simp)
+      (h _ (end_step .up)) : ctxOK prev (.dotdot :: r))
+  | dot => exact (ctx_ch prev '.' r (by simp [chr]) (h _ (end_step .dot)) : ctxOK prev (.ch (chr '.') :: r))
 
 /-- further steps, each after a `/` -/
 theorem ctx_steps (rest : List Tok) (hr : ∀ p, endTok p → ctxOK (some p) rest) (hh : rest.head? ≠ some (.ch (chr '('))) :
-    ∀ (steps : List PStep) (p0 : Tok), endTok p0 → ctxOK (some p0) (sepToks steps ++ rest) := by
+    ∀ (steps : List PStep) (p0 : Tok), endTok p0 → (∀ st ∈ steps, ∀ b ∈ st.preds, BlkCtx b) →
+      ctxOK (some p0) (sepToks steps ++ rest) := by
   intro steps
   induction steps with
-  | nil => intro p0 h0; exact hr p0 h0
+  | nil => intro p0 h0 _; exact hr p0 h0
   | cons st r ih =>
-    intro p0 _
-    simp only [sepToks, List.cons_append]
-    exact ctx_ch _ '/' _ (by simp [chr]) (ctx_step _ st _ canOp_slash (sep_head r rest hh) (ih st.tok (end_step st)))
+    intro p0 _ hall
+    simp only [sepToks, List.cons_append, List.append_assoc]
+    exact ctx_ch _ '/' _ (by simp [chr]) (ctx_step _ st _ canOp_slash (sep_head r rest hh) (hall st (by simp))
+      (fun p hp => ih p hp fun x hx => hall x (by simp [hx])))
 
-/-- the expression can be written: no bare `/` among the operands (after it an operator name is taken for a name) -/
+/-- the predicates of a path can be written -/
+def pathCtx : PRoot → List PStep → Prop
+  | .rel f, steps => (∀ b ∈ f.preds, BlkCtx b) ∧ ∀ st ∈ steps, ∀ b ∈ st.preds, BlkCtx b
+  | _, steps => ∀ st ∈ steps, ∀ b ∈ st.preds, BlkCtx b
+
+/-- the expression can be written: no bare `/` among the operands (after it an operator name is taken for a name),
+    and the contents of its predicates can be written -/
 def PE.lexable : PE → Prop
-  | .path root steps => ¬(root = .abs ∧ steps = [])
+  | .path root steps => ¬(root = .abs ∧ steps = []) ∧ pathCtx root steps
   | .num _ => True
   | .lit _ => True
   | .paren e => e.lexable
@@ -107,21 +148,22 @@ theorem ctx_toks (e : PE) : e.lexable → ∀ (prev : Option Tok) (rest : List T
   induction e with
   | path root steps =>
     intro hl prev rest hp hr hh
+    obtain ⟨hl1, hl2⟩ := hl
     cases root with
     | abs =>
       cases steps with
-      | nil => exact absurd ⟨rfl, rfl⟩ hl
+      | nil => exact absurd ⟨rfl, rfl⟩ hl1
       | cons st r =>
-        simp only [PE.toks, pathToks, sepToks, List.cons_append]
-        exact ctx_ch _ '/' _ (by simp [chr]) (ctx_step _ st _ canOp_slash (sep_head r rest hh)
-          (ctx_steps rest hr hh r st.tok (end_step st)))
+        simp only [PE.toks, pathToks, sepToks, List.cons_append, List.append_assoc]
+        exact ctx_ch _ '/' _ (by simp [chr]) (ctx_step _ st _ canOp_slash (sep_head r rest hh) (hl2 st (by simp))
+          (fun p hpe => ctx_steps rest hr hh r p hpe fun x hx => hl2 x (by simp [hx])))
     | rel f =>
-      simp only [PE.toks, pathToks, List.cons_append]
-      exact ctx_step prev f _ hp (sep_head steps rest hh) (ctx_steps rest hr hh steps f.tok (end_step f))
+      simp only [PE.toks, pathToks, List.cons_append, List.append_assoc]
+      exact ctx_step prev f _ hp (sep_head steps rest hh) hl2.1 (fun p hpe => ctx_steps rest hr hh steps p hpe hl2.2)
     | cur =>
       simp only [PE.toks, pathToks, List.cons_append]
       exact ctx_cur prev _ hp (ctx_ch _ ')' _ (by simp [chr])
-        (ctx_steps rest hr hh steps _ (Or.inr (Or.inr (Or.inl rfl)))))
+        (ctx_steps rest hr hh steps _ (Or.inr (Or.inr (Or.inl rfl))) hl2))
   | num x =>
     intro _ prev rest _ hr _
     exact ctx_plain prev _ rest (by simp [needsOp]) (fun fn => by simp) (fun p l => by simp) (by simp)
@@ -163,6 +205,10 @@ theorem ctx_toks (e : PE) : e.lexable → ∀ (prev : Option Tok) (rest : List T
     exact ctx_func prev fn _ hp (iha hn.1 _ _ canOp_lparen (fun p _ =>
       ctx_ch _ ',' _ (by simp [chr]) (ihb hn.2.1 _ _ canOp_comma (fun p _ =>
         ctx_ch _ ',' _ (by simp [chr]) (ihc hn.2.2 _ _ canOp_comma (close rest hr) (hrp rest))) (hcm _))) (hcm _))
+
+/-- every written expression can stand in a predicate -/
+theorem ctx_of (e : PE) (hl : e.lexable) : BlkCtx ⟨e.toks, e.code⟩ :=
+  fun prev rest hp hr hh => ctx_toks e hl prev rest hp hr hh
 
 theorem writes_length {tok : Tok} {text : List Rune} (h : Writes tok text) : 1 ≤ text.length := by
   obtain ⟨c, body, e, _⟩ := writes_head h
